@@ -231,7 +231,9 @@ pub fn typed_value(ty: Ty, h: u64) -> Value {
 
 /// The scripted result of invocation (`f`, `arg`) number `ordinal` of evaluation `tag`.
 pub fn resolve(spec: &FnSpec, key: &str, arg: &Value, tag: u32, ordinal: u32) -> Result<Value, String> {
-    let mut h = combine(spec.salt, combine(hash_str(&spec.name), hash_str(key)));
+    // scripted values must not tell `==` arguments apart (0.0 / -0.0, d1.0 / d1.00): whether such
+    // arguments are "the same" for caching purposes is a don't-care zone of the properties
+    let mut h = combine(spec.salt, combine(hash_str(&spec.name), hash_str(&crate::xv::canon_eq(arg))));
     if spec.mix_tag {
         h = combine(h, 0x7461_6700 + tag as u64);
     }
